@@ -210,3 +210,25 @@ package frame
 //@   canary   fr == nil
 //@   canary   fr != nil
 //@   modifies r.curReadSignatureTime, *r.BufByteReader
+
+// ---------------------------------------------------------------- originating writer (deprecated API, same code shape as streamwriter)
+
+//@ func (*Writer).writeFrameAndFill
+//@   let msg0 = old(specFrameMessage(fr))
+//@   let inD  = (w.DialectRW != nil && ufDialectHas(w.DialectRW, old(specFrameMessage(fr).GetID())))
+//@   requires w != nil && w.ByteWriter != nil && len(w.bw) == 512 && fr != nil
+//@   requires specFrameMessage(fr) != nil && specIsRaw(specFrameMessage(fr)) ==> len(specRawPayload(specFrameMessage(fr))) <= 255
+//@   requires w.OutKey != nil ==> SpecIsV2(fr)
+//@   ensures  [nil-message] msg0 == nil ==> err != nil && logLen() == 0
+//@   ensures  [not-in-dialect] msg0 != nil && !inD ==> err != nil && logLen() == 0
+//@   ensures  [at-most-one] logLen() <= 1
+//@   ensures  [emitted-layout] logLen() == 1 ==> logN(0) == specFrameLen(fr) &&
+//@              (forall j int :: 0 <= j && j < specFrameLen(fr) ==> logByte(0, j) == specFrameWire(fr, j))
+//@   ensures  [emitted-header] logLen() == 1 ==> SpecOriginHeader(fr, old(w.nextSeqNumber), w.OutSystemID, w.OutComponentID, w.OutKey != nil)
+//@   ensures  [emitted-checksum] logLen() == 1 ==> SpecChecksumOK(fr, ufDialectExtra(w.DialectRW, msg0.GetID()))
+//@   ensures  [emitted-signature] logLen() == 1 && w.OutKey != nil ==>
+//@              SpecSigBlock(fr, w.OutSignatureLinkID, uint64(sinceNanos())/10000) && sinceRefIs2015() && SpecSignatureOK(fr, w.OutKey)
+//@   ensures  [seq-accepted] err == nil ==> logLen() == 1 && w.nextSeqNumber == old(w.nextSeqNumber) + 1
+//@   ensures  [seq-refused] logLen() == 0 ==> err != nil && w.nextSeqNumber == old(w.nextSeqNumber)
+//@   ensures  [v1-big-id] !SpecIsV2(fr) && msg0 != nil && msg0.GetID() > 255 ==> err != nil && logLen() == 0
+//@   modifies w.bw[:], w.nextSeqNumber, ghost:log, *fr
